@@ -12,12 +12,18 @@
 (*         group may keep any member, comparisons that involve "no value" are unordered.    *)
 (* Part 4: the state machine Collect(part) / Merge(a, b) / Serialize / Finalize.            *)
 (*                                                                                          *)
+(* Kinds: value_count, sum, min, max, avg, stats, extended_stats (exact moments),           *)
+(* cardinality, percentiles (exact rank), top_hits, terms, range, histogram,                *)
+(* date_histogram, filter, composite (terms sources), nested to any depth.                  *)
 (* All field values are integers (integer valued f64 included): text terms are small        *)
 (* integers that the harness maps to strings by an order preserving injection, dates are    *)
 (* milliseconds.  A number of a result is a rational <<n, d>> (d > 0) or NullQ.             *)
 EXTENDS Integers, Sequences, FiniteSets, TLC
 
 CONSTANT BrokenMerge   \* TRUE only in negative configurations: merging two minima keeps the left one
+CONSTANT ValueCounts   \* FALSE: doc_count of a range / histogram bucket = number of documents with a value
+                       \* in the bucket.  TRUE mirrors recorded finding F14 (one count per value) so that
+                       \* the dedicated F13 sub-run is judged on everything else
 
 INF == 1000000000
 NullQ == <<0, 0>>
@@ -36,8 +42,9 @@ RECURSIVE SumOver(_, _)
 SumOver(f, S) == IF S = {} THEN 0 ELSE LET x == CHOOSE y \in S : TRUE IN f[x] + SumOver(f, S \ {x})
 SortedSeq(S) == [j \in 1..Cardinality(S) |-> CHOOSE p \in S : Cardinality({q \in S : q < p}) = j - 1]
 
-MetricKinds == {"value_count", "sum", "min", "max", "avg", "stats", "extended_stats", "cardinality"}
+MetricKinds == {"value_count", "sum", "min", "max", "avg", "stats", "extended_stats", "cardinality", "percentiles"}
 IsMetric(a) == a.k \in MetricKinds
+IsLeaf(a) == IsMetric(a) \/ a.k = "top_hits"
 IsHist(a) == a.k \in {"histogram", "date_histogram"}
 
 ---------------------------------------------------------------------------------------------
@@ -47,22 +54,29 @@ DocVals(doc, a) == IF Len(doc[a.field]) = 0 /\ HasMiss(a) THEN <<a.missing>> ELS
 DocValSet(doc, a) == SeqToSet(DocVals(doc, a))
 
 (* moments of a bag of values *)
-EmptyMom == [n |-> 0, s |-> 0, q |-> 0, lo |-> INF, hi |-> -INF, set |-> {}]
+CountIn(vs, x) == Cardinality({j \in 1..Len(vs) : vs[j] = x})
+BagEq(s, t) == Len(s) = Len(t) /\ \A x \in SeqToSet(s) \cup SeqToSet(t) : CountIn(s, x) = CountIn(t, x)
+EmptyMom == [n |-> 0, s |-> 0, q |-> 0, lo |-> INF, hi |-> -INF, set |-> {}, bag |-> EmptyFn]
 DocMom(doc, a) ==
   LET vs == DocVals(doc, a) IN
   [n |-> Len(vs), s |-> SeqSum(vs), q |-> SeqSumSq(vs),
    lo |-> IF vs = <<>> THEN INF ELSE SetMin(SeqToSet(vs)),
-   hi |-> IF vs = <<>> THEN -INF ELSE SetMax(SeqToSet(vs)), set |-> SeqToSet(vs)]
+   hi |-> IF vs = <<>> THEN -INF ELSE SetMax(SeqToSet(vs)), set |-> SeqToSet(vs),
+   bag |-> [x \in SeqToSet(vs) |-> CountIn(vs, x)]]
 MergeMom(x, y) ==
   [n |-> x.n + y.n, s |-> x.s + y.s, q |-> x.q + y.q,
-   lo |-> IF BrokenMerge THEN x.lo ELSE Min2(x.lo, y.lo), hi |-> Max2(x.hi, y.hi), set |-> x.set \cup y.set]
+   lo |-> IF BrokenMerge THEN x.lo ELSE Min2(x.lo, y.lo), hi |-> Max2(x.hi, y.hi), set |-> x.set \cup y.set,
+   bag |-> [v \in x.set \cup y.set |-> (IF v \in x.set THEN x.bag[v] ELSE 0) + (IF v \in y.set THEN y.bag[v] ELSE 0)]]
 (* direct: over the whole bag at once *)
 DirectMom(a, docs, D) ==
   LET all == UNION {DocValSet(docs[i], a) : i \in D} IN
   [n |-> SumOver([i \in D |-> Len(DocVals(docs[i], a))], D),
    s |-> SumOver([i \in D |-> SeqSum(DocVals(docs[i], a))], D),
    q |-> SumOver([i \in D |-> SeqSumSq(DocVals(docs[i], a))], D),
-   lo |-> IF all = {} THEN INF ELSE SetMin(all), hi |-> IF all = {} THEN -INF ELSE SetMax(all), set |-> all]
+   lo |-> IF all = {} THEN INF ELSE SetMin(all), hi |-> IF all = {} THEN -INF ELSE SetMax(all), set |-> all,
+   bag |-> [x \in all |-> SumOver([i \in D |-> CountIn(DocVals(docs[i], a), x)], D)]]
+(* the value at index r (from 0) of the sorted bag *)
+Kth(m, r) == SetMin({x \in m.set : SumOver(m.bag, {y \in m.set : y <= x}) >= r + 1})
 
 StatsVal(m) ==
   [count |-> <<m.n, 1>>, sum |-> <<m.s, 1>>,
@@ -76,6 +90,9 @@ MetricVal(a, m) ==
     [] a.k = "avg" -> [value |-> IF m.n = 0 THEN NullQ ELSE <<m.s, m.n>>]
     [] a.k = "cardinality" -> [value |-> <<Cardinality(m.set), 1>>]
     [] a.k = "stats" -> StatsVal(m)
+    \* percentile p = the value of rank floor(p/100 * (n - 1)) (what the sketch estimates)
+    [] a.k = "percentiles" ->
+         [ps |-> [j \in 1..Len(a.percents) |-> IF m.n = 0 THEN NullQ ELSE <<Kth(m, (a.percents[j] * (m.n - 1)) \div 100), 1>>]]
     [] a.k = "extended_stats" ->
          [st |-> StatsVal(m),
           sumsq |-> IF m.n = 0 THEN NullQ ELSE <<m.q, 1>>,
@@ -108,7 +125,27 @@ RTo(r) == IF "to" \in DOMAIN r THEN r.to ELSE INF
 RangePoints(a) == SortedSeq({-INF, INF} \cup {RFrom(a.ranges[j]) : j \in 1..Len(a.ranges)} \cup {RTo(a.ranges[j]) : j \in 1..Len(a.ranges)})
 NumRangeBuckets(a) == Len(RangePoints(a)) - 1
 DocInRange(doc, a, lo, hi) == \E x \in SeqToSet(doc[a.field]) : lo <= x /\ x < hi
+(* what one document adds to the doc_count of the buckets it falls into *)
+RangeCnt(doc, a, lo, hi) ==
+  IF ValueCounts THEN Cardinality({j \in 1..Len(doc[a.field]) : lo <= doc[a.field][j] /\ doc[a.field][j] < hi})
+  ELSE IF DocInRange(doc, a, lo, hi) THEN 1 ELSE 0
+HistCnt(doc, a, k) ==
+  IF ValueCounts THEN Cardinality({j \in 1..Len(doc[a.field]) : InHard(a, doc[a.field][j]) /\ HKey(a, doc[a.field][j]) = k})
+  ELSE IF k \in DocHKeys(a, doc) THEN 1 ELSE 0
 FilterMatch(doc, a) == a.qv \in SeqToSet(doc[a.qf])
+
+(* composite: one bucket per combination of the values of the source fields; a document without *)
+(* a value for one of the sources is ignored.  a.sources[k] = <<name, field, ascending>>          *)
+RECURSIVE CTuples(_, _, _)
+CTuples(doc, a, k) ==
+  IF k = 0 THEN {<<>>}
+  ELSE {Append(t, x) : t \in CTuples(doc, a, k - 1), x \in SeqToSet(doc[a.sources[k][2]])}
+DocCKeys(doc, a) == CTuples(doc, a, Len(a.sources))
+RECURSIVE CMult(_, _, _, _)
+CMult(doc, a, key, k) == IF k = 0 THEN 1 ELSE CountIn(doc[a.sources[k][2]], key[k]) * CMult(doc, a, key, k - 1)
+CompCnt(doc, a, key) == IF ValueCounts THEN CMult(doc, a, key, Len(a.sources)) ELSE 1
+(* top_hits: a.sort[k] = <<field, ascending>> over single-valued fields that every document has *)
+HitOf(a, doc) == [key |-> [k \in 1..Len(a.sort) |-> doc[a.sort[k][1]][1]], dv |-> [k \in 1..Len(a.dv) |-> doc[a.dv[k]]]]
 
 ---------------------------------------------------------------------------------------------
 (* Part 1: the denotation *)
@@ -125,33 +162,36 @@ Den(a, docs, D, U) ==
              dropped |-> SumOver([k \in all |-> Cardinality(KD(k))], all \ cand)]
        [] a.k = "range" ->
          LET P == RangePoints(a) IN
-         [j \in 1..(Len(P) - 1) |->
+         [nodocs |-> D = {},
+          bs |-> [j \in 1..(Len(P) - 1) |->
             LET BD == {i \in D : DocInRange(docs[i], a, P[j], P[j + 1])} IN
-            [lo |-> P[j], hi |-> P[j + 1], cnt |-> Cardinality(BD), sub |-> DenSubs(a.sub, docs, BD, BD)]]
+            [lo |-> P[j], hi |-> P[j + 1], cnt |-> SumOver([i \in BD |-> RangeCnt(docs[i], a, P[j], P[j + 1])], BD),
+             sub |-> DenSubs(a.sub, docs, BD, BD)]]]
        [] IsHist(a) ->
          LET KD(k) == {i \in D : k \in DocHKeys(a, docs[i])}
              keys == UNION {DocHKeys(a, docs[i]) : i \in D}
-             exp == IF a.mdc = 0 THEN HistSpan(a, keys) \cup keys ELSE {k \in keys : Cardinality(KD(k)) >= a.mdc}
-         IN [k \in exp |-> [cnt |-> Cardinality(KD(k)), sub |-> DenSubs(a.sub, docs, KD(k), KD(k))]]
+             cnt(k) == SumOver([i \in KD(k) |-> HistCnt(docs[i], a, k)], KD(k))
+             exp == IF a.mdc = 0 THEN HistSpan(a, keys) \cup keys ELSE {k \in keys : cnt(k) >= a.mdc}
+         IN [k \in exp |-> [cnt |-> cnt(k), sub |-> DenSubs(a.sub, docs, KD(k), KD(k))]]
        [] a.k = "filter" ->
          LET FD == {i \in D : FilterMatch(docs[i], a)} IN
          [cnt |-> Cardinality(FD), sub |-> DenSubs(a.sub, docs, FD, FD)]
+       [] a.k = "composite" ->
+         LET KD(key) == {i \in D : key \in DocCKeys(docs[i], a)}
+             keys == UNION {DocCKeys(docs[i], a) : i \in D}
+         IN [key \in keys |-> [cnt |-> SumOver([i \in KD(key) |-> CompCnt(docs[i], a, key)], KD(key)),
+                                sub |-> DenSubs(a.sub, docs, KD(key), KD(key))]]
+       [] a.k = "top_hits" ->
+         [id \in {docs[i].id[1] : i \in D} |-> HitOf(a, docs[CHOOSE i \in D : docs[i].id[1] = id])]
 
-(* number of distinct terms a segment can hold for this request: the per-segment cut          *)
-(* (segment_size) cannot bite iff this is <= segment_size                                      *)
-RECURSIVE MaxDistinct(_, _, _)
-MaxDistinct(a, docs, U) ==
-  IF IsMetric(a) THEN 0
-  ELSE LET below == IF Len(a.sub) = 0 THEN 0 ELSE SetMax({MaxDistinct(a.sub[j][2], docs, U) : j \in 1..Len(a.sub)})
-           here == IF a.k = "terms" THEN Cardinality(UNION {DocValSet(docs[i], a) \cup SeqToSet(docs[i][a.field]) : i \in U}) ELSE 0
-       IN Max2(here, below)
-RECURSIVE MinSegSize(_)
-MinSegSize(a) ==
-  IF IsMetric(a) THEN INF
-  ELSE LET below == IF Len(a.sub) = 0 THEN INF ELSE SetMin({MinSegSize(a.sub[j][2]) : j \in 1..Len(a.sub)})
-       IN IF a.k = "terms" THEN Min2(a.segsize, below) ELSE below
-(* the regime in which the property promises exact results *)
-Exact(a, docs, U) == MaxDistinct(a, docs, U) <= MinSegSize(a)
+(* the regime in which the property promises exact results: for every terms aggregation of the *)
+(* tree the number of distinct terms a segment can hold (including the `missing` key) is at     *)
+(* most its segment_size, so that the per-segment cut cannot bite                               *)
+RECURSIVE Exact(_, _, _)
+Exact(a, docs, U) ==
+  IF IsLeaf(a) THEN TRUE
+  ELSE /\ (a.k = "terms" => Cardinality(UNION {DocValSet(docs[i], a) \cup SeqToSet(docs[i][a.field]) : i \in U}) <= a.segsize)
+       /\ \A j \in 1..Len(a.sub) : Exact(a.sub[j][2], docs, U)
 
 ---------------------------------------------------------------------------------------------
 (* Part 2: the merge algebra *)
@@ -160,9 +200,10 @@ EmptySubs(subs) == [j \in 1..Len(subs) |-> Empty(subs[j][2])]
 Empty(a) ==
   IF IsMetric(a) THEN EmptyMom
   ELSE CASE a.k = "terms" -> [m |-> EmptyFn, z |-> {}]
-         [] a.k = "range" -> [j \in 1..NumRangeBuckets(a) |-> [cnt |-> 0, sub |-> EmptySubs(a.sub)]]
+         [] a.k = "range" -> [n |-> 0, bs |-> [j \in 1..NumRangeBuckets(a) |-> [cnt |-> 0, sub |-> EmptySubs(a.sub)]]]
          [] IsHist(a) -> EmptyFn
          [] a.k = "filter" -> [cnt |-> 0, sub |-> EmptySubs(a.sub)]
+         [] a.k \in {"composite", "top_hits"} -> EmptyFn
 
 (* the contribution of one document; inD: the document matches the query *)
 RECURSIVE DocInter(_, _, _)
@@ -174,14 +215,19 @@ DocInter(a, doc, inD) ==
           z |-> SeqToSet(doc[a.field])]
        [] a.k = "range" ->
          LET P == RangePoints(a) IN
-         [j \in 1..(Len(P) - 1) |->
-            IF inD /\ DocInRange(doc, a, P[j], P[j + 1]) THEN [cnt |-> 1, sub |-> DocInterSubs(a.sub, doc)]
-            ELSE [cnt |-> 0, sub |-> EmptySubs(a.sub)]]
+         [n |-> IF inD THEN 1 ELSE 0,
+          bs |-> [j \in 1..(Len(P) - 1) |->
+            IF inD /\ DocInRange(doc, a, P[j], P[j + 1]) THEN [cnt |-> RangeCnt(doc, a, P[j], P[j + 1]), sub |-> DocInterSubs(a.sub, doc)]
+            ELSE [cnt |-> 0, sub |-> EmptySubs(a.sub)]]]
        [] IsHist(a) ->
-         [k \in (IF inD THEN DocHKeys(a, doc) ELSE {}) |-> [cnt |-> 1, sub |-> DocInterSubs(a.sub, doc)]]
+         [k \in (IF inD THEN DocHKeys(a, doc) ELSE {}) |-> [cnt |-> HistCnt(doc, a, k), sub |-> DocInterSubs(a.sub, doc)]]
        [] a.k = "filter" ->
          IF inD /\ FilterMatch(doc, a) THEN [cnt |-> 1, sub |-> DocInterSubs(a.sub, doc)]
          ELSE [cnt |-> 0, sub |-> EmptySubs(a.sub)]
+       [] a.k = "composite" ->
+         [key \in (IF inD THEN DocCKeys(doc, a) ELSE {}) |-> [cnt |-> CompCnt(doc, a, key), sub |-> DocInterSubs(a.sub, doc)]]
+       [] a.k = "top_hits" ->
+         [id \in (IF inD THEN {doc.id[1]} ELSE {}) |-> HitOf(a, doc)]
 
 RECURSIVE Merge(_, _, _)
 MergeSubs(subs, x, y) == [j \in 1..Len(subs) |-> Merge(subs[j][2], x[j], y[j])]
@@ -192,9 +238,12 @@ MergeMap(a, x, y) ==
 Merge(a, x, y) ==
   IF IsMetric(a) THEN MergeMom(x, y)
   ELSE CASE a.k = "terms" -> [m |-> MergeMap(a, x.m, y.m), z |-> x.z \cup y.z]
-         [] a.k = "range" -> [j \in DOMAIN x |-> [cnt |-> x[j].cnt + y[j].cnt, sub |-> MergeSubs(a.sub, x[j].sub, y[j].sub)]]
+         [] a.k = "range" -> [n |-> x.n + y.n,
+                              bs |-> [j \in DOMAIN x.bs |-> [cnt |-> x.bs[j].cnt + y.bs[j].cnt, sub |-> MergeSubs(a.sub, x.bs[j].sub, y.bs[j].sub)]]]
          [] IsHist(a) -> MergeMap(a, x, y)
          [] a.k = "filter" -> [cnt |-> x.cnt + y.cnt, sub |-> MergeSubs(a.sub, x.sub, y.sub)]
+         [] a.k = "composite" -> MergeMap(a, x, y)
+         [] a.k = "top_hits" -> [id \in DOMAIN x \cup DOMAIN y |-> IF id \in DOMAIN x THEN x[id] ELSE y[id]]
 
 RECURSIVE Fin(_, _)
 FinSubs(subs, x) == [j \in 1..Len(subs) |-> Fin(subs[j][2], x[j])]
@@ -209,12 +258,15 @@ Fin(a, x) ==
              dropped |-> SumOver([k \in all |-> cnt(k)], all \ cand)]
        [] a.k = "range" ->
          LET P == RangePoints(a) IN
-         [j \in DOMAIN x |-> [lo |-> P[j], hi |-> P[j + 1], cnt |-> x[j].cnt, sub |-> FinSubs(a.sub, x[j].sub)]]
+         [nodocs |-> x.n = 0,
+          bs |-> [j \in DOMAIN x.bs |-> [lo |-> P[j], hi |-> P[j + 1], cnt |-> x.bs[j].cnt, sub |-> FinSubs(a.sub, x.bs[j].sub)]]]
        [] IsHist(a) ->
          LET exp == IF a.mdc = 0 THEN HistSpan(a, DOMAIN x) \cup DOMAIN x ELSE {k \in DOMAIN x : x[k].cnt >= a.mdc} IN
          [k \in exp |-> IF k \in DOMAIN x THEN [cnt |-> x[k].cnt, sub |-> FinSubs(a.sub, x[k].sub)]
                         ELSE [cnt |-> 0, sub |-> FinSubs(a.sub, EmptySubs(a.sub))]]
        [] a.k = "filter" -> [cnt |-> x.cnt, sub |-> FinSubs(a.sub, x.sub)]
+       [] a.k = "composite" -> [key \in DOMAIN x |-> [cnt |-> x[key].cnt, sub |-> FinSubs(a.sub, x[key].sub)]]
+       [] a.k = "top_hits" -> x
 
 (* requests: a sequence of <<name, aggregation>> *)
 DenReq(req, docs, D, U) == DenSubs(req, docs, D, U)
@@ -246,6 +298,20 @@ SqrtIs(o, q) ==
        /\ (IF o.v >= 2 THEN (o.v - 2) * (o.v - 2) * q[2] <= q[1] * o.scale * o.scale ELSE TRUE)
        /\ q[1] * o.scale * o.scale <= (o.v + 2) * (o.v + 2) * q[2]
 
+(* a sketch estimate: within 2 % of the exact value (+ 0.02) *)
+RelIs(o, q) ==
+  IF q[2] = 0 THEN o.t = "null"
+  ELSE LET x == q[1]
+           diff == IF o.v >= x * o.scale THEN o.v - x * o.scale ELSE x * o.scale - o.v
+           ax == IF x >= 0 THEN x ELSE -x
+       IN o.t = "a" /\ 100 * diff <= 2 * ax * o.scale + 2 * o.scale
+(* lexicographic order of top_hits sort keys / composite keys; dirs[k] = ascending *)
+RECURSIVE LexLe(_, _, _, _)
+LexLe(dirs, x, y, k) ==
+  IF k > Len(dirs) THEN TRUE
+  ELSE IF x[k] = y[k] THEN LexLe(dirs, x, y, k + 1)
+  ELSE IF dirs[k] THEN x[k] < y[k] ELSE x[k] > y[k]
+
 StatsMatch(v, o) ==
   /\ NumIs(o.count, v.count) /\ NumIs(o.sum, v.sum) /\ NumIs(o.min, v.min)
   /\ NumIs(o.max, v.max) /\ NumIs(o.avg, v.avg)
@@ -257,8 +323,7 @@ OrdVal(a, e) ==
            sv == e.sub[j]
            sa == a.sub[j][2]
        IN IF sa.k = "stats" THEN sv[a.ord.prop]
-          ELSE IF sa.k = "sum" /\ sv.empty THEN NullQ    \* shown as 0, ordered as "no value": unordered
-          ELSE sv.value
+          ELSE sv.value                                  \* a sum over no value is shown as 0 and ordered as 0
 QLe(x, y) == x[1] * y[2] <= y[1] * x[2]
 (* bucket (k1, e1) may come before bucket (k2, e2) *)
 MayPrecede(a, k1, e1, k2, e2) ==
@@ -299,14 +364,19 @@ Match(a, v, o) ==
             \* no per-segment cut in this regime: the error bound is 0 where it is shown
             /\ o.err = (IF a.ord.t = "count" /\ ~a.ord.asc THEN 0 ELSE -1)
     [] a.k = "range" ->
-         /\ Len(o.buckets) = Len(v)
-         /\ \A j \in 1..Len(v) :
-              LET b == o.buckets[j] IN
-              /\ (IF v[j].lo = -INF THEN b.from.t = "null" ELSE NumIs(b.from, <<v[j].lo, 1>>))
-              /\ (IF v[j].hi = INF THEN b.to.t = "null" ELSE NumIs(b.to, <<v[j].hi, 1>>))
-              /\ b.key = (IF v[j].lo = -INF THEN "*" ELSE ToString(v[j].lo)) \o "-" \o (IF v[j].hi = INF THEN "*" ELSE ToString(v[j].hi))
-              /\ b.doc_count = v[j].cnt
-              /\ SubsMatch(a.sub, v[j].sub, b.sub)
+         \* over no document at all (an empty parent bucket) the list of ranges may also be absent:
+         \* the documentation does not say (observed: gap / zero buckets carry no range buckets)
+         \/ v.nodocs /\ Len(o.buckets) = 0
+         \/ /\ Len(o.buckets) = Len(v.bs)
+            /\ \A j \in 1..Len(v.bs) :
+                 LET b == o.buckets[j]
+                     e == v.bs[j]
+                 IN
+                 /\ (IF e.lo = -INF THEN b.from.t = "null" ELSE NumIs(b.from, <<e.lo, 1>>))
+                 /\ (IF e.hi = INF THEN b.to.t = "null" ELSE NumIs(b.to, <<e.hi, 1>>))
+                 /\ b.key = (IF e.lo = -INF THEN "*" ELSE ToString(e.lo)) \o "-" \o (IF e.hi = INF THEN "*" ELSE ToString(e.hi))
+                 /\ b.doc_count = e.cnt
+                 /\ SubsMatch(a.sub, e.sub, b.sub)
     [] IsHist(a) ->
          LET B == o.buckets
              n == Len(B)
@@ -316,6 +386,31 @@ Match(a, v, o) ==
                                /\ SubsMatch(a.sub, v[B[j].key].sub, B[j].sub)
             /\ \A j \in 1..(n - 1) : B[j].key < B[j + 1].key
     [] a.k = "filter" -> o.doc_count = v.cnt /\ SubsMatch(a.sub, v.sub, o.sub)
+    [] a.k = "percentiles" ->
+         /\ Len(o.values) = Len(v.ps)
+         /\ \A j \in 1..Len(v.ps) : RelIs(o.values[j], v.ps[j])
+    [] a.k = "composite" ->
+         LET B == o.buckets
+             n == Len(B)
+             dirs == [k \in 1..Len(a.sources) |-> a.sources[k][3]]
+             okeys == {B[j].key : j \in 1..n}
+         IN /\ n = Min2(a.size, Cardinality(DOMAIN v))
+            /\ okeys \subseteq DOMAIN v /\ Cardinality(okeys) = n
+            /\ \A j \in 1..n : B[j].doc_count = v[B[j].key].cnt /\ SubsMatch(a.sub, v[B[j].key].sub, B[j].sub)
+            /\ \A j \in 1..(n - 1) : LexLe(dirs, B[j].key, B[j + 1].key, 1)
+            /\ \A key \in DOMAIN v \ okeys : LexLe(dirs, B[n].key, key, 1)
+    [] a.k = "top_hits" ->
+         LET H == o.hits
+             n == Len(H)
+             dirs == [k \in 1..Len(a.sort) |-> a.sort[k][2]]
+             ids == {H[j].id : j \in 1..n}
+         IN /\ n = Min2(a.size, Cardinality(DOMAIN v))
+            /\ ids \subseteq DOMAIN v /\ Cardinality(ids) = n
+            /\ \A j \in 1..n :
+                 /\ Len(H[j].sort) = Len(a.sort) /\ \A k \in 1..Len(a.sort) : NumIs(H[j].sort[k], <<v[H[j].id].key[k], 1>>)
+                 /\ Len(H[j].dv) = Len(a.dv) /\ \A k \in 1..Len(a.dv) : BagEq(H[j].dv[k], v[H[j].id].dv[k])
+            /\ \A j \in 1..(n - 1) : LexLe(dirs, v[H[j].id].key, v[H[j + 1].id].key, 1)
+            /\ \A id \in DOMAIN v \ ids : LexLe(dirs, v[H[n].id].key, v[id].key, 1)
 
 MatchReq(req, vs, os) == SubsMatch(req, vs, os)
 
@@ -338,7 +433,7 @@ Init == /\ docs = <<>> /\ part = <<>> /\ req \in Reqs /\ query \in Queries
 AddDoc(d, p) ==
   /\ phase = "build" /\ Len(docs) < MaxDocs
   /\ p <= (IF part = <<>> THEN 0 ELSE SetMax(SeqToSet(part))) + 1     \* parts are numbered in order of appearance
-  /\ docs' = Append(docs, d) /\ part' = Append(part, p)
+  /\ docs' = Append(docs, [d EXCEPT !.id = <<Len(docs) + 1>>]) /\ part' = Append(part, p)
   /\ UNCHANGED <<req, query, phase, pool, collected>>
 
 Start == /\ phase = "build" /\ Len(docs) >= 1 /\ phase' = "run"
@@ -356,8 +451,8 @@ MergeTwo(e1, e2) ==
   /\ UNCHANGED <<docs, part, req, query, phase, collected>>
 
 (* serialisation and finalisation do not change the abstract state *)
-Serialize(e) == phase = "run" /\ e \in pool /\ UNCHANGED vars
-Finalize(e) == phase = "run" /\ e \in pool /\ UNCHANGED vars
+SerializeStep(e) == phase = "run" /\ e \in pool /\ UNCHANGED vars
+FinalizeStep(e) == phase = "run" /\ e \in pool /\ UNCHANGED vars
 
 Next == \/ \E d \in DocDomain, p \in 1..MaxParts : AddDoc(d, p)
         \/ Start
